@@ -85,22 +85,43 @@ func (ru *run) mutate(vb *chainBlock) *chainBlock {
 }
 
 // orphan builds a well-formed block whose parent is a block the clean node has never accepted.
-func (ru *run) orphan(rejected *chainBlock, sibling *chainBlock) *chainBlock {
+// head is the block the node under test has as its head when the orphan is delivered (it differs from the
+// rejected block's parent when the rejected block sits on another fork): one variant is, apart from its parent
+// hash, a perfectly valid child of that head.
+func (ru *run) orphan(rejected *chainBlock, sibling *chainBlock, head *chainBlock) *chainBlock {
 	b := cloneBlock(sibling.block)
 	b.Header.Parent = rejected.hash
 	b.Header.Slot = sibling.block.Header.Slot + 1
-	switch ru.t.Choose(3, "orphan_root") {
+	sealOn := sibling.parent
+	switch ru.t.Choose(4, "orphan_root") {
 	case 0:
 		b.Header.ParentStateRoot = sibling.parent.root
 	case 1:
 		b.Header.ParentStateRoot = types.StateRoot{}
-	default:
+	case 2:
 		b.Header.ParentStateRoot = sibling.root
+	default:
+		// a freshly authored, fully valid child of the head whose parent hash is then pointed at the rejected block
+		plan := ru.planBlock(head)
+		if sb, err := ru.a.build(head, plan); err == nil {
+			sb.Header.Parent = rejected.hash
+			if ru.a.reseal(head, &sb, plan.offenders) == nil {
+				if head != sibling.parent {
+					ru.r.Count("fault:orphan_is_otherwise_valid_child_of_head_on_other_fork", 1)
+				} else {
+					ru.r.Count("fault:orphan_is_otherwise_valid_child_of_head", 1)
+				}
+				return &chainBlock{block: sb, hash: headerHash(sb.Header), parent: rejected, depth: rejected.depth + 1, mutated: "child-of-rejected-block"}
+			}
+		}
+		b.Header.ParentStateRoot = head.root
+		sealOn = head
 	}
 	b.Extrinsic = types.Extrinsic{}
 	fixExtrinsicHash(&b)
 	b.Header.OffendersMark = types.OffendersMark{}
-	_ = ru.a.reseal(sibling.parent, &b, nil)
+	b.Header.EpochMark, b.Header.TicketsMark = nil, nil
+	_ = ru.a.reseal(sealOn, &b, nil)
 	return &chainBlock{block: b, hash: headerHash(b.Header), parent: rejected, depth: rejected.depth + 1, mutated: "child-of-rejected-block"}
 }
 
@@ -110,11 +131,18 @@ func (ru *run) phaseC() {
 	var sched []delivery
 	faults := 0
 	maxFaults := 8
+	head := ru.gen // the block the nodes will have as head at this point of the schedule (if every valid delivery is accepted)
 	for _, vb := range ru.all {
 		if !vb.valid || !vb.accepted {
 			continue
 		}
-		if faults < maxFaults && t.Prob(1, 3, "fault_here") {
+		// a block on another fork than the current head: what is rejected next is a SIBLING (or cousin) of the head
+		onOtherFork := vb.parent != head
+		faultNum, orphanDen := 1, 4
+		if onOtherFork {
+			faultNum, orphanDen = 2, 2
+		}
+		if faults < maxFaults && t.Prob(faultNum, 3, "fault_here") {
 			faults++
 			switch t.Pick([]int{8, 2, 1}, "fault_kind") {
 			case 0:
@@ -122,12 +150,15 @@ func (ru *run) phaseC() {
 				if inv == nil {
 					break
 				}
+				if onOtherFork {
+					r.Count("fault:rejected_block_on_other_fork_than_head", 1)
+				}
 				sched = append(sched, delivery{kind: "invalid", blk: inv, mut: inv.mut})
 				if t.Prob(1, 3, "retry") {
 					sched = append(sched, delivery{kind: "retry", blk: inv, mut: inv.mut})
 				}
-				if t.Prob(1, 4, "orphan") {
-					sched = append(sched, delivery{kind: "orphan", blk: ru.orphan(inv, vb)})
+				if t.Prob(1, orphanDen, "orphan") {
+					sched = append(sched, delivery{kind: "orphan", blk: ru.orphan(inv, vb, head)})
 				}
 				if t.Prob(1, 6, "second_invalid") {
 					if inv2 := ru.mutate(vb); inv2 != nil {
@@ -141,6 +172,7 @@ func (ru *run) phaseC() {
 			}
 		}
 		sched = append(sched, delivery{kind: "valid", blk: vb})
+		head = vb
 	}
 	// ---- phase B': oracle answers for the faulty blocks (fresh incarnations, before N1 exists) -----
 	for i := range sched {
